@@ -10,8 +10,9 @@
 (* how many input chunks operator o consumes before it is done producing   *)
 (* (a LIMIT stops early, a blocking operator needs all).                   *)
 (*                                                                         *)
-(* Dev "PanicLooksLikeEof": a panicking task just drops its sender; the    *)
-(* reader sees the end of the stream (the defect repaired in spawn()).     *)
+(* A channel is closed when its sender is dropped; the end of the stream   *)
+(* is "channel empty and closed" and takes no slot.  Deviations (Dev) are  *)
+(* described at Report.                                                    *)
 (***************************************************************************)
 EXTENDS Naturals, Sequences, FiniteSets, TLC
 
@@ -23,65 +24,85 @@ CONSTANTS N,          \* operators
 
 Ops == 1..N
 
-VARIABLES chan,      \* op -> sequence of items in its output channel: "c" chunk | "e" error | "x" end of stream
+VARIABLES chan,      \* op -> sequence of items in its output channel: "c" chunk | "e" error
+          closed,    \* op -> its sender is dropped: a reader that finds the channel empty sees the end of the stream
           sent,      \* op -> chunks forwarded so far
           got,       \* op -> input chunks consumed so far (op 1 reads the table)
-          st,        \* op -> "run" | "done" | "failed"
+          st,        \* op -> "run" | "failing" (caught a fault, has to report it) | "done" | "failed"
           out,       \* items the caller received from the root
           result,    \* "none" | "ok" | "err"
           fired
 
-vars == <<chan, sent, got, st, out, result, fired>>
+vars == <<chan, closed, sent, got, st, out, result, fired>>
 
-Init == /\ chan = [o \in Ops |-> <<>>] /\ sent = [o \in Ops |-> 0] /\ got = [o \in Ops |-> 0]
+Init == /\ chan = [o \in Ops |-> <<>>] /\ closed = [o \in Ops |-> FALSE]
+        /\ sent = [o \in Ops |-> 0] /\ got = [o \in Ops |-> 0]
         /\ st = [o \in Ops |-> "run"] /\ out = <<>> /\ result = "none" /\ fired = FALSE
 
-HasInput(o) == IF o = 1 THEN got[1] < Chunks ELSE Len(chan[o - 1]) > 0
+HasItem(o)   == IF o = 1 THEN got[1] < Chunks ELSE Len(chan[o - 1]) > 0
 InputItem(o) == IF o = 1 THEN "c" ELSE Head(chan[o - 1])
-InputDone(o) == IF o = 1 THEN got[1] = Chunks ELSE FALSE
+InputEof(o)  == IF o = 1 THEN got[1] = Chunks ELSE Len(chan[o - 1]) = 0 /\ closed[o - 1]
+Pop(o, c)    == IF o = 1 THEN c ELSE [c EXCEPT ![o - 1] = Tail(@)]
 
 Hit(o) == FaultKind # "none" /\ o = FaultOp /\ sent[o] + 1 = FaultAt
-\* what goes into the channel instead of the chunk when the fault hits
-Item(o) == IF ~Hit(o) THEN "c"
-           ELSE IF FaultKind = "error" THEN "e"
-           ELSE IF "PanicLooksLikeEof" \in Dev THEN "x" ELSE "e"
-Status(o) == IF Hit(o) THEN "failed" ELSE "run"
 
-\* operator o forwards one chunk (streaming operators: one output chunk per input chunk)
+\* operator o computes its next chunk from one input chunk and forwards it (the send waits for room);
+\* the fault hits while the chunk is computed, i.e. whether or not there is room in the channel
 Forward(o) ==
-    /\ st[o] = "run" /\ Len(chan[o]) < Cap
-    /\ \/ /\ HasInput(o) /\ InputItem(o) = "c"
-          /\ got' = [got EXCEPT ![o] = @ + 1]
-          /\ (IF o > 1 THEN chan' = [chan EXCEPT ![o - 1] = Tail(@), ![o] = Append(@, Item(o))]
-              ELSE chan' = [chan EXCEPT ![o] = Append(@, Item(o))])
-          /\ sent' = [sent EXCEPT ![o] = @ + 1]
-          /\ st' = [st EXCEPT ![o] = Status(o)]
-          /\ fired' = (fired \/ Hit(o))
-       \* end of input: forward the end of stream
-       \/ /\ (InputDone(o) \/ (o > 1 /\ HasInput(o) /\ InputItem(o) = "x"))
-          /\ chan' = [chan EXCEPT ![o] = Append(@, "x")]
-          /\ st' = [st EXCEPT ![o] = "done"]
-          /\ UNCHANGED <<got, sent, fired>>
-       \* an error from below is passed on and ends the operator
-       \/ /\ o > 1 /\ HasInput(o) /\ InputItem(o) = "e"
-          /\ chan' = [chan EXCEPT ![o] = Append(@, "e")]
-          /\ st' = [st EXCEPT ![o] = "failed"]
-          /\ UNCHANGED <<got, sent, fired>>
+    /\ st[o] = "run" /\ HasItem(o) /\ InputItem(o) = "c"
+    /\ IF Hit(o)
+       THEN /\ st' = [st EXCEPT ![o] = "failing"] /\ fired' = TRUE
+            /\ chan' = Pop(o, chan) /\ got' = [got EXCEPT ![o] = @ + 1]
+            /\ UNCHANGED <<sent, closed>>
+       ELSE /\ Len(chan[o]) < Cap
+            /\ chan' = [Pop(o, chan) EXCEPT ![o] = Append(@, "c")]
+            /\ got' = [got EXCEPT ![o] = @ + 1] /\ sent' = [sent EXCEPT ![o] = @ + 1]
+            /\ UNCHANGED <<st, fired, closed>>
     /\ UNCHANGED <<out, result>>
+
+\* the task reports the fault to its reader and ends.  An error value is an ordinary stream item and
+\* a caught panic is broadcast the same way (both wait for room).
+\*   Dev "PanicLooksLikeEof": a panicking task just drops its sender (the defect repaired in spawn()).
+\*   Dev "PanicTrySend":      the panic report is sent without waiting and lost when the channel is full.
+Report(o) ==
+    /\ st[o] = "failing"
+    /\ LET lost == FaultKind = "panic" /\ ("PanicLooksLikeEof" \in Dev \/ ("PanicTrySend" \in Dev /\ Len(chan[o]) >= Cap))
+       IN IF lost THEN UNCHANGED chan
+          ELSE Len(chan[o]) < Cap /\ chan' = [chan EXCEPT ![o] = Append(@, "e")]
+    /\ st' = [st EXCEPT ![o] = "failed"] /\ closed' = [closed EXCEPT ![o] = TRUE]
+    /\ UNCHANGED <<sent, got, out, result, fired>>
+
+\* end of input: the task ends and drops its sender
+Finish(o) ==
+    /\ st[o] = "run" /\ InputEof(o)
+    /\ st' = [st EXCEPT ![o] = "done"] /\ closed' = [closed EXCEPT ![o] = TRUE]
+    /\ UNCHANGED <<chan, sent, got, out, result, fired>>
+
+\* an error from below is passed on and ends the operator
+Relay(o) ==
+    /\ st[o] = "run" /\ o > 1 /\ HasItem(o) /\ InputItem(o) = "e" /\ Len(chan[o]) < Cap
+    /\ chan' = [Pop(o, chan) EXCEPT ![o] = Append(@, "e")]
+    /\ st' = [st EXCEPT ![o] = "failed"] /\ closed' = [closed EXCEPT ![o] = TRUE]
+    /\ UNCHANGED <<sent, got, out, result, fired>>
 
 \* Database::run collects the root's stream
 Collect ==
-    /\ result = "none" /\ Len(chan[N]) > 0
-    /\ LET x == Head(chan[N]) IN
-       /\ chan' = [chan EXCEPT ![N] = Tail(@)]
-       /\ IF x = "c" THEN out' = Append(out, x) /\ UNCHANGED result
-          ELSE IF x = "e" THEN result' = "err" /\ UNCHANGED out
-          ELSE result' = "ok" /\ UNCHANGED out
-    /\ UNCHANGED <<sent, got, st, fired>>
+    /\ result = "none"
+    /\ \/ /\ Len(chan[N]) > 0
+          /\ LET x == Head(chan[N]) IN
+             /\ chan' = [chan EXCEPT ![N] = Tail(@)]
+             /\ IF x = "c" THEN out' = Append(out, x) /\ UNCHANGED result
+                ELSE result' = "err" /\ UNCHANGED out
+       \/ /\ Len(chan[N]) = 0 /\ closed[N]
+          /\ result' = "ok" /\ UNCHANGED <<chan, out>>
+    /\ UNCHANGED <<sent, got, st, fired, closed>>
 
-Next == (\E o \in Ops : Forward(o)) \/ Collect
+Next == (\E o \in Ops : Forward(o) \/ Report(o) \/ Finish(o) \/ Relay(o)) \/ Collect
 Spec == Init /\ [][Next]_vars
 
 \* C15: success is never reported for a run in which the fault fired
 OkIsComplete == (result = "ok") => (~fired /\ Len(out) = Chunks)
+\* every run ends with a verdict (no protocol deadlock): checked as "no terminal state without result"
+Terminal == ~ENABLED Next
+Decided  == Terminal => result # "none"
 ==============================================================================
